@@ -339,6 +339,7 @@ def _values_of(comp, p):
             out += [x.dt.tzinfo for x in e.dts]
         elif hasattr(e, "start"):
             out.append(e.start.tzinfo)
+            out.append(getattr(e.end, "tzinfo", None))
         else:
             dt = getattr(e, "dt", None)
             out.append(getattr(dt, "tzinfo", None))
